@@ -17,7 +17,88 @@ T = {
             "(pairing, tag/markup equality, levels, block flags, children placement, no adjacent text, no specials) "
             "recursively, then SyntaxTreeNode must build.",
             "as C01", "3 C02"),
+    "C03": ("exploration", "bounded-exhaustive enumeration of line-shape documents x block-rule subsets + map checker",
+            "All contextual/free line-shape documents of <=3 lines under block-rule subsets; an independent checker "
+            "evaluates range, nesting, order, blank-end, content-line containment and coverage on every map.",
+            "line alphabet and K as in evidence; CR variants are covered by C17", "3 C03"),
+    "C04": ("exploration", "bounded-exhaustive enumeration + strict output-grammar tokenizer",
+            "Inline atom strings and line-shape documents with metacharacters in every slot, under every html=False "
+            "configuration neighbourhood; the output is tokenised by an independent strict grammar (fixed tag and "
+            "attribute vocabulary, proper nesting, escaped text and attribute values).",
+            "alphabets/bounds in evidence; default renderer, no highlight callback", "3 C04"),
+    "C05": ("exploration", "bounded-exhaustive enumeration of scheme spellings x producer syntaxes + URL oracle",
+            "Every spelling of each dangerous scheme with <=2 re-encoded characters and <=1 inserted ignorable "
+            "character x prefixes x producer syntaxes x presets; hrefs/srcs on tokens and in HTML must be URL-safe "
+            "ASCII and not carry a dangerous scheme under the browser's reading; rejected constructs stay literal.",
+            "stub linkifier; browser view = strip C0/space, drop TAB/LF/CR, lower-case", "3 C05"),
+    "C06": ("exploration", "bounded-exhaustive enumeration + differential oracle parse(wrap(D)) = wrap(parse(D))",
+            "Every base document of <=3 lines x every wrapper word (quote, 7 list markers) up to the stated depth; "
+            "the wrapped parse must equal the lifted base parse modulo exactly what the property allows.",
+            "commonmark rules; tab/CR/NUL-free newline-terminated bases", "3 C06"),
+    "C07": ("exploration", "bounded-exhaustive enumeration of document pairs + differential concatenation oracle",
+            "All pairs (A,B) of enumerated documents meeting the operational side conditions; block tokens of "
+            "A+blank+B must equal those of A followed by those of B shifted.",
+            "side conditions decided with the parser itself on a probe paragraph and a seam regex", "3 C07"),
+    "C08": ("exploration", "bounded-exhaustive enumeration + independent column model and backtick scanner",
+            "Templated container chains x every tab/space spelling x payloads checked against an independent model of "
+            "CommonMark tab columns; all verbatim tokens of the L-space against their source lines; code spans "
+            "against an independent backtick scanner; recorded markup/info against the source lines.",
+            "column model is 40 lines of CommonMark tab arithmetic written independently", "3 C08"),
+    "C09": ("exploration", "bounded-exhaustive enumeration of texts x escape forms x contexts, template oracle",
+            "All texts of <=3 (thorough 4) symbols over a 34-symbol alphabet x {backslash, numeric, named} forms x 7 "
+            "inline contexts x 2 presets; rendered output must equal the context template with escapeHtml(t).",
+            "alphabet in evidence", "3 C09"),
+    "C10": ("exploration", "bounded-exhaustive enumeration of documents x configuration neighbourhoods",
+            "Token types must be a subset of what the enabled rules can produce; extension on/off equality on inputs "
+            "without trigger characters; inline_definitions/store_labels only add; the three option routes agree.",
+            "d<=2 switch neighbourhoods of the presets, not all 2^23 subsets", "3 C10"),
+    "C11": ("model_checking", "explicit-state BFS over rule-management histories on the real Ruler / MarkdownIt",
+            "Breadth-first search to a fixpoint over Ruler operations (bounded rule count) with a canonical key "
+            "containing every field of the object; coherence invariant and reference-model agreement in every state; "
+            "same search through the MarkdownIt facade.",
+            "rule-name universe {a,b,z}, alt chains {x,y}, <=3 (thorough 4) rules", "3 C11"),
+    "C12": ("model_checking", "explicit-state BFS over API-call histories, state = generic shared-heap fingerprint",
+            "BFS over histories of construct/parse/render/enable/option/render-rule operations on 1-2 live instances; "
+            "after every history every instance is probed on a document pool and compared with a reference table "
+            "computed in a separate pristine interpreter.",
+            "document pool and operation alphabet in evidence; depth bound", "3 C12"),
+    "C13": ("model_checking", "stateless exploration of all thread interleavings under a controlled scheduler "
+            "(iterative preemption bounding, sys.monitoring)",
+            "Real threads serialised by a baton; every placement of 1 preemption at bytecode granularity and 2 at "
+            "line granularity for pairs of calls on fresh / reconfigured instances; every re-entry point of nested "
+            "calls; each result must equal the solo result, horizon = hang.",
+            "CPython GIL semantics (switches only between bytecodes); 8-document pool x scenarios", "3 C13"),
+    "C14": ("fault_enumeration", "exhaustive fault injection at every callback invocation x exception class",
+            "For every rule of every chain, render rule and the highlight callback: raise instead of / after the i-th "
+            "invocation, for every i and 6 exception classes; every exit path of (nested) reset_rules blocks; "
+            "exception identity, rules, options, heap fingerprint and probes must be as before.",
+            "document set and configurations in evidence", "3 C14"),
+    "C15": ("exploration", "bounded-exhaustive enumeration of token streams + round-trip / tree-law oracles",
+            "Every stream of the enumerated documents: as_dict/from_dict in 4 modes, tree build/flatten identity, "
+            "walk order, link consistency, render twice.",
+            "spaces as C02 (reduced)", "3 C15"),
+    "C16": ("exploration", "bounded-exhaustive enumeration of documents x definition blocks x env histories",
+            "Differential: render(D, env seeded by R) = render(R + blank + D); bookkeeping counts; all cased code "
+            "points; reference form vs inline form over (text,dest,title) triples.",
+            "pools in evidence", "3 C16"),
+    "C17": ("exploration", "bounded-exhaustive enumeration of encodings, differential against the canonical twin",
+            "Every assignment of LF/CRLF/CR to every line end, NUL vs U+FFFD at every position, every tab spelling of "
+            "every blank run, compared with the LF / U+FFFD / space-spelled twin.",
+            "line/atom bounds in evidence", "3 C17"),
+    "C18": ("exploration", "bounded-exhaustive enumeration + differential / reference renderer",
+            "Inline strings across 5 block contexts; parseInline vs paragraph; all 24 renderer-option combinations "
+            "against a reference renderer applied to the same tokens.",
+            "atoms in evidence", "3 C18"),
+    "C19": ("exploration", "bounded-exhaustive enumeration, shape equality and per-character substitution relation",
+            "Inline strings x {replacements, smartquotes, both} x quote shapes x presets; typographer on/off streams "
+            "must have equal shape; smartquotes only substitutes quote characters.",
+            "atoms in evidence", "3 C19"),
+    "C20": ("exploration", "exhaustive enumeration of pump families x sizes with a deterministic call count",
+            "Library call events counted under sys.setprofile for every pump family u^n, u^n w v^n over the atom "
+            "alphabet plus the named families at L, 2L, 4L; length-normalised growth must stay below 1.5.",
+            "finite sizes, not asymptotics; regex engine internals not counted", "3 C20"),
 }
+
 
 DEFAULT_NA = "check not built yet (work in progress; see DESIGN.md section 3 for the planned exhaustive exploration)"
 
